@@ -1,5 +1,5 @@
 /-
-  C05 bounded progress, part 5: the queue invariant `QInv`, the invariant bundle `Reach` of every reachable state,
+  C05 bounded progress, part 5: the queue invariant `SbQInv`, the invariant bundle `Reach` of every reachable state,
   and the decomposition of one successful end-block into its two FIFO batches.
 -/
 import SgeProofs.Lemmas.SettleBoundInv
@@ -10,7 +10,7 @@ open Sge Sge.Genesis
 /-- the two work queues in every reachable state: no duplicates; a market waiting for bet settlement still has an
     ACTIVE book, a book waiting for the pay-out of its participations is RESOLVED; and an open market has an ACTIVE
     book -/
-structure QInv (s : State) : Prop where
+structure SbQInv (s : State) : Prop where
   nodupM : s.mqueue.Nodup
   nodupO : s.obqueue.Nodup
   mActive : ∀ u ∈ s.mqueue, statusOf s u = some OB_ACTIVE
@@ -18,11 +18,11 @@ structure QInv (s : State) : Prop where
   openActive : ∀ u m, getMarket s u = some m → isOpenStatus m.status = true → statusOf s u = some OB_ACTIVE
 
 theorem qinv_init (p : Params) (bal : List (Nat × Int)) (h t : Nat) :
-    QInv { bal := bal, params := p, height := h, time := t } :=
+    SbQInv { bal := bal, params := p, height := h, time := t } :=
   ⟨List.nodup_nil, List.nodup_nil, (fun _ hu => nomatch hu), (fun _ hu => nomatch hu), fun _ _ hm => by cases hm⟩
 
 /-- messages keep the queue invariant -/
-theorem MsgFrame.qinv {s s' : State} (hF : MsgFrame s s') (hS : SettleInv s) (hQ : QInv s) : QInv s' := by
+theorem MsgFrame.qinv {s s' : State} (hF : MsgFrame s s') (hS : SettleInv s) (hQ : SbQInv s) : SbQInv s' := by
   have hst : ∀ u, statusOf s u = some OB_ACTIVE → statusOf s' u = some OB_ACTIVE := by
     intro u h
     rw [hF.status u (by rw [h]; exact fun e => nomatch e), h]
@@ -57,10 +57,10 @@ theorem MsgFrame.qinv {s s' : State} (hF : MsgFrame s s') (hS : SettleInv s) (hQ
 
 /-- the queue invariant after the markets `D1` at the head of the market queue finished bet settlement: they moved to
     the end of the order-book queue and their books went from ACTIVE to RESOLVED -/
-theorem qinv_after_bet {s s1 : State} {D1 : List Nat} (hS : SettleInv s) (hQ : QInv s)
+theorem qinv_after_bet {s s1 : State} {D1 : List Nat} (hS : SettleInv s) (hQ : SbQInv s)
     (hsplit : s.mqueue = D1 ++ s1.mqueue) (hob1 : s1.obqueue = s.obqueue ++ D1)
     (hst : ∀ u, u ∉ D1 → statusOf s1 u = statusOf s u) (hD1 : ∀ u ∈ D1, statusOf s1 u = some OB_RESOLVED)
-    (hm1 : s1.markets = s.markets) : QInv s1 := by
+    (hm1 : s1.markets = s.markets) : SbQInv s1 := by
   have hndM : (D1 ++ s1.mqueue).Nodup := by rw [← hsplit]; exact hQ.nodupM
   have hD1q : ∀ u ∈ D1, u ∈ s.mqueue := fun u hu => by rw [hsplit]; exact List.mem_append_left _ hu
   refine ⟨(List.nodup_append.mp hndM).2.1, ?_, ?_, ?_, ?_⟩
@@ -96,10 +96,10 @@ theorem qinv_after_bet {s s1 : State} {D1 : List Nat} (hS : SettleInv s) (hQ : Q
     exact hQ.openActive u m hm ho
 
 /-- the queue invariant after the books `D2` at the head of the order-book queue were finished -/
-theorem qinv_after_ob {s1 s' : State} {D2 : List Nat} (hQ1 : QInv s1)
+theorem qinv_after_ob {s1 s' : State} {D2 : List Nat} (hQ1 : SbQInv s1)
     (hsplit : s1.obqueue = D2 ++ s'.obqueue) (hmq2 : s'.mqueue = s1.mqueue)
     (hst : ∀ u, u ∉ D2 → statusOf s' u = statusOf s1 u) (hD2st : ∀ u ∈ D2, statusOf s1 u = some OB_RESOLVED)
-    (hm2 : s'.markets = s1.markets) : QInv s' := by
+    (hm2 : s'.markets = s1.markets) : SbQInv s' := by
   have hndO : (D2 ++ s'.obqueue).Nodup := by rw [← hsplit]; exact hQ1.nodupO
   refine ⟨by rw [hmq2]; exact hQ1.nodupM, (List.nodup_append.mp hndO).2.1, ?_, ?_, ?_⟩
   · intro u hu
@@ -138,12 +138,12 @@ structure Phases (s s1 s' : State) (D1 D2 : List Nat) : Prop where
   markets2 : s'.markets = s.markets
   idx1 : BetIdx s1
   inv1 : SettleInv s1
-  q1 : QInv s1
+  q1 : SbQInv s1
   idx2 : BetIdx s'
   inv2 : SettleInv s'
-  q2 : QInv s'
+  q2 : SbQInv s'
 
-theorem endBlockO_phases {s s' : State} (hI : BetIdx s) (hS : SettleInv s) (hQ : QInv s) (h : endBlockO s = some s') :
+theorem endBlockO_phases {s s' : State} (hI : BetIdx s) (hS : SettleInv s) (hQ : SbQInv s) (h : endBlockO s = some s') :
     ∃ s1 D1 D2, Phases s s1 s' D1 D2 := by
   have h0 := h
   unfold endBlockO at h
@@ -153,11 +153,11 @@ theorem endBlockO_phases {s s' : State} (hI : BetIdx s) (hS : SettleInv s) (hQ :
   have hI1 := (betEndBlock_good _ _ _ _ hI h1).1
   have hS1 := betEndBlock_inv _ _ _ _ hS h1
   have hm1 := betEndBlock_markets _ _ _ _ h1
-  have hQ1 : QInv s1 := qinv_after_bet hS hQ hB1.split hob1 hbk1.status (fun u hu => (hbk1.resolved u hu).2) hm1
+  have hQ1 : SbQInv s1 := qinv_after_bet hS hQ hB1.split hob1 hbk1.status (fun u hu => (hbk1.resolved u hu).2) hm1
   have hpar : s1.params = s.params := hpar1
   obtain ⟨D2, hB2, hbk2, hmq2, hpe2, hpar2⟩ := obEndBlock_batch _ s1 _ s' hS1.sortedParts hQ1.nodupO (Nat.lt_succ_self _) h2
   have hm2 := obEndBlock_markets _ _ _ _ _ h2
-  have hQ2 : QInv s' := qinv_after_ob hQ1 hB2.split hmq2 hbk2.status (fun u hu => (hbk2.settled u hu).1) hm2
+  have hQ2 : SbQInv s' := qinv_after_ob hQ1 hB2.split hmq2 hbk2.status (fun u hu => (hbk2.settled u hu).1) hm2
   exact ⟨s1, D1, D2, hB1, hob1, hbk1, hB2, hbk2, hmq2, hpe2, hpar2.trans hpar, hm1, hm2.trans hm1, hI1, hS1, hQ1,
     (endBlockO_good hI h0).1, endBlockO_inv hS h0, hQ2⟩
 
@@ -168,7 +168,7 @@ theorem endBlockO_phases {s s' : State} (hI : BetIdx s) (hS : SettleInv s) (hQ :
 structure Reach (s : State) : Prop where
   idx : BetIdx s
   inv : SettleInv s
-  q : QInv s
+  q : SbQInv s
 
 theorem reach_init (p : Params) (bal : List (Nat × Int)) (h t : Nat)
     (h0 : getBal bal ACC_POOL = 0 ∧ getBal bal ACC_BETFEE = 0 ∧ getBal bal ACC_HOUSEFEE = 0) :
